@@ -16,6 +16,9 @@ import WzVerif.Lemmas.HttpDigest
 import WzVerif.Lemmas.HttpCsp
 import WzVerif.Lemmas.DateText
 import WzVerif.Lemmas.IfRange
+import WzVerif.Lemmas.HttpSetHist
+import WzVerif.Lemmas.HttpHist
+import WzVerif.Lemmas.HttpNF
 namespace Wz.Props.C06
 open Wz Wz.Http
 
@@ -113,6 +116,63 @@ theorem parseList_normal_form (h : Str) :
 theorem parseSet_normal_form (h : Str) :
     parseSetHeader (headerSetToHeader (parseSetHeader h)) = parseSetHeader h :=
   parseSet_dump _
+
+/-! ### header sets reached through a mutation history -/
+
+/-- two `HeaderSet` values are equal: same members in the same order (iteration, indexing,
+`to_header`, `as_set(True)`) and the same case-folded index (`len`, `in`, `bool`, `as_set()`) -/
+abbrev HsEquiv := Wz.Http.HsEquiv
+/-- the object `parse_set_header(text)` builds -/
+abbrev parseSetObj := Wz.Http.parseSetObj
+/-- a history run through the mutators **as regenerated from `structures.py`**
+(`Gen/PyFns_HeaderSet.lean`: `update`, `add`, `remove`, `discard`, `__setitem__`; `clear` and
+`__delitem__` from C08's hand model) -/
+abbrev hsRun := Wz.Http.runT
+
+/-- Whatever the history, `parse_set_header(hs.to_header())` has exactly the members of `hs`, in
+order — `to_header` reads `_headers` only. (No hypothesis: also for inconsistent objects.) -/
+theorem headerSet_members_roundtrip (c : HS.St) (ops : List HS.Op) :
+    (parseSetObj (HS.toHeader (hsRun c ops))).headers = (hsRun c ops).headers := by
+  unfold parseSetObj Wz.Http.parseSetObj HS.construct
+  exact Wz.Http.parseSet_hsToHeader _
+
+/-- **`parse_set_header(hs.to_header()) == hs` for every reachable header set**: start from
+`HeaderSet(l)` with members distinct ignoring case, apply any history of `add`, `update`, `remove`,
+`discard`, `clear`, `del hs[i]`, `hs[i] = v` (an item assignment may re-spell the entry it replaces
+in another case, but not duplicate *another* member — known finding F08b), serialise, parse: same
+members in the same order **and** the same `len` / `in` / `as_set()`. The mutators are the
+definitions regenerated from the source on every run; the invariant is C08's, for every history. -/
+theorem headerSet_history_roundtrip (l : List Str) (hl : (l.map Hdr.lower).Nodup) (ops : List HS.Op)
+    (hok : C08L.hsOkHist (HS.construct l) ops = true) :
+    HsEquiv (parseSetObj (HS.toHeader (hsRun (HS.construct l) ops))) (hsRun (HS.construct l) ops) :=
+  Wz.Http.headerSet_history_roundtrip_any _ (C08L.hs_construct_inv l hl) ops hok
+
+example : (([['G', 'E', 'T'], ['p', 'o', 's', 't']] : List Str).map Hdr.lower).Nodup ∧
+    C08L.hsOkHist (HS.construct [['G', 'E', 'T'], ['p', 'o', 's', 't']])
+      [.setitem 0 ['g', 'e', 't'], .add ['P', 'O', 'S', 'T'], .remove ['G', 'e', 't'], .update [['x'], ['X']],
+        .setitem (-1) ['y'], .discard ['q'], .delitem 0] = true := by decide
+
+/-- the case the seeded re-ordering of `__setitem__` breaks: re-spelling an entry in another case
+keeps it a member (`HeaderSet(["GET"]); hs[0] = "get"` has length 1 before and after the round trip) -/
+theorem headerSet_setitem_case_variant :
+    hsRun (HS.construct [['G', 'E', 'T']]) [.setitem 0 ['g', 'e', 't']] = ⟨[['g', 'e', 't']], [['g', 'e', 't']]⟩ ∧
+    HsEquiv (parseSetObj (HS.toHeader (hsRun (HS.construct [['G', 'E', 'T']]) [.setitem 0 ['g', 'e', 't']])))
+      (hsRun (HS.construct [['G', 'E', 'T']]) [.setitem 0 ['g', 'e', 't']]) := by
+  decide
+
+/-- the initial members must be distinct ignoring case (F08c): `HeaderSet(['a','A']).remove('a')`
+keeps the member `A` that its index no longer knows, and the parsed set has length 1, not 0 -/
+theorem headerSet_history_needs_distinct_init :
+    ¬ HsEquiv (parseSetObj (HS.toHeader (hsRun (HS.construct [['a'], ['A']]) [.remove ['a']])))
+      (hsRun (HS.construct [['a'], ['A']]) [.remove ['a']]) := by
+  decide
+
+/-- an item assignment must not duplicate another member (F08b): `HeaderSet(['a','b']); hs[0] = 'B';
+hs.remove('b')` -/
+theorem headerSet_history_needs_setitem_ok :
+    ¬ HsEquiv (parseSetObj (HS.toHeader (hsRun (HS.construct [['a'], ['b']]) [.setitem 0 ['B'], .remove ['b']])))
+      (hsRun (HS.construct [['a'], ['b']]) [.setitem 0 ['B'], .remove ['b']]) := by
+  decide
 
 /-! ### key=value dicts -/
 
@@ -403,6 +463,37 @@ theorem cacheControl_roundtrip_typed (r : String × String × String × String)
 theorem cacheControl_int_needs_int_text :
     getCacheValue [("max-age".toList, some "soon".toList)] "max-age".toList .none .int = .ok .none := by decide
 
+/-- one step of building a cache-control object: a typed property assignment / deletion, a dict
+item assignment / `pop`, `clear` -/
+abbrev CCOp := Wz.Http.CCOp
+abbrev ccRun := Wz.Http.ccRun
+abbrev CCOpOk := Wz.Http.CCOpOk
+
+/-- the round trip for every cache-control object **reachable by an assignment history** (typed
+property sets with values of the property's type, `del`, `cc[k] = v`, `pop`, `clear`) from a valid
+directive dict: `parse_cache_control_header(cc.to_header())` is the same directive dict ... -/
+theorem cacheControl_history_roundtrip (d : Dict (Option Str)) (ops : List CCOp) (hd : DictOk d)
+    (hops : ∀ op ∈ ops, CCOpOk op = true) :
+    (dumpHeaderDict (ccRun d ops) >>= parseCacheControl) = .ok (ccRun d ops) :=
+  cacheControl_history_roundtrip_any d ops hd hops
+
+/-- ... and a typed getter reads back the value last assigned through its property. -/
+theorem cacheControl_history_get (d : Dict (Option Str)) (ops : List CCOp) (key : Str) (empty v : CCVal)
+    (ty : CCType) (hd : DictOk d) (hops : ∀ op ∈ ops, CCOpOk op = true) (hk : KeyOk key = true)
+    (hv : CCValFor ty v = true) :
+    (dumpHeaderDict (ccRun d (ops ++ [.setTyped key ty v])) >>= parseCacheControl
+        >>= fun p => getCacheValue p key empty ty) = .ok (ccExpected ty empty v) :=
+  cacheControl_history_get_any d ops key empty v ty hd hops hk hv
+
+example : ∀ op ∈ [CCOp.setTyped "max-age".toList .int (.int 5), .setTyped "no-store".toList .bool .true_,
+    .delTyped "max-age".toList, .setItem "x-ext".toList (some "a b".toList), .popItem "q".toList, .clear,
+    .setTyped "private".toList .str (.str "a, b".toList)], CCOpOk op = true := by decide
+
+/-- the key of a dict-style assignment must be a token: `cc["a,b"] = "x"` does not survive -/
+theorem cacheControl_history_needs_token_key :
+    (dumpHeaderDict (ccRun [] [.setItem "a,b".toList (some "x".toList)]) >>= parseCacheControl)
+      ≠ .ok (ccRun [] [.setItem "a,b".toList (some "x".toList)]) := by decide
+
 /-! ### Content-Security-Policy -/
 
 /-- directive: stripped, non-empty, no space, no `;` — value: stripped, non-empty, no `;` -/
@@ -424,6 +515,26 @@ theorem csp_roundtrip_needs_stripped_value :
     parseCsp (dumpCsp [("a".toList, " b".toList)]) ≠ [("a".toList, " b".toList)] := by decide
 theorem csp_roundtrip_needs_nonempty_value :
     parseCsp (dumpCsp [("a".toList, [])]) ≠ [("a".toList, [])] := by decide
+
+/-- one step of building a CSP object: `csp.<property> = value / None`, `csp[k] = v`, `del`, `clear` -/
+abbrev CspOp := Wz.Http.CspOp
+abbrev cspRun := Wz.Http.cspRun
+abbrev CspOpOk := Wz.Http.CspOpOk
+abbrev CspDictOk := Wz.Http.CspDictOk
+
+/-- the round trip for every `ContentSecurityPolicy` **reachable by an assignment history** -/
+theorem csp_history_roundtrip (d : Dict Str) (ops : List CspOp) (hd : CspDictOk d)
+    (hops : ∀ op ∈ ops, CspOpOk op = true) : parseCsp (dumpCsp (cspRun d ops)) = cspRun d ops :=
+  csp_history_roundtrip_any d ops hd hops
+
+example : CspDictOk [] ∧ ∀ op ∈ [CspOp.set "default-src".toList (some "'self'".toList), .set "img-src".toList (some "data: *".toList),
+    .set "default-src".toList none, .del "x".toList, .clear, .set "report-uri".toList (some "/r".toList)], CspOpOk op = true := by
+  refine ⟨⟨by simp, by simp⟩, by decide⟩
+
+/-- every typed CSP property of the live class has a directive key the domain accepts (stripped,
+non-empty, no space, no `;`) — `decide` over the regenerated key list -/
+theorem csp_property_keys_wellformed :
+    Gen.Http.cspKeys.all (fun k => CspItemOk (k.toList, ['x'])) = true := by decide +kernel
 
 /-! ### Authorization / WWW-Authenticate -/
 
@@ -674,5 +785,95 @@ theorem csp_normal_form (d : Dict Str) (hok : ∀ x ∈ d, CspItemOk x = true) (
     parseCsp (dumpCsp (parseCsp (dumpCsp d))) = parseCsp (dumpCsp d) := by
   rw [csp_roundtrip_any d hok hnd]
   exact csp_roundtrip_any d hok hnd
+
+/-! ### normal form on *arbitrary header text* (not only on the dumpers' images) -/
+
+/-- quoted strings: `unquote(quote(unquote(h))) == unquote(h)` for every text `h` -/
+theorem unquote_normal_form_arbitrary (h : Str) (allowToken : Bool) :
+    unquoteHeaderValue (quoteHeaderValue (unquoteHeaderValue h) allowToken) = unquoteHeaderValue h :=
+  unquote_quote_any _ allowToken
+
+/-- **Range**: for *every* header text `h`, if `parse_range_header(h)` returns a `Range` then
+`parse_range_header(range.to_header())` returns the same `Range`. Content: whatever the item loop
+accepts is ascending and non-overlapping with an open / suffix range only last (the loop invariant),
+a `-n` item is negative, at least one range is present, and the units (`strip().lower()` of text
+without `=`) are a fixed point of `strip().lower()` — `str.lower()` facts by `decide` over the
+regenerated table. -/
+theorem range_normal_form_arbitrary (h : Str) (r : RangeV) (hp : parseRangeHeader h = .ok (some r)) :
+    parseRangeHeader (rangeToHeader r) = .ok (some r) :=
+  range_normal_form_any h r hp
+
+example : parseRangeHeader " Bytes = 0 - 4 , 7-, ".toList = .ok none
+    ∧ parseRangeHeader " BYTES= 0 - 4 ,7- ".toList = .ok (some ⟨"bytes".toList, [(0, some 5), (7, none)]⟩) := by decide
+
+/-- every `Range` the parser returns lies in the domain of `range_roundtrip` -/
+theorem range_parser_image (h : Str) (r : RangeV) (hp : parseRangeHeader h = .ok (some r)) :
+    UnitsOk r.units = true ∧ r.ranges ≠ [] ∧ rangesOk 0 r.ranges = true :=
+  parseRange_image_ok h r hp
+
+/-- **Content-Range**: for every header text `h`, a parsed `ContentRange` re-serialises to text that
+parses to the same object (units without white space, range valid for its length — what the parser
+checked) -/
+theorem contentRange_normal_form_arbitrary (h : Str) (c : ContentRangeV) (hp : parseContentRangeHeader h = .ok (some c)) :
+    parseContentRangeHeader (contentRangeToHeader c) = .ok (some c) :=
+  contentRange_normal_form_any h c hp
+
+example : parseContentRangeHeader "  items\t 3-7/* ".toList = .ok (some ⟨some "items".toList, some 3, some 8, none⟩) := by decide
+
+/-- **Content-Security-Policy**: `parse_csp_header(parse_csp_header(h).to_header()) == parse_csp_header(h)`
+for every text `h`: every stored directive is non-empty, stripped and free of spaces and `;`, every
+value non-empty, stripped and free of `;`, and directives are distinct -/
+theorem csp_normal_form_arbitrary (h : Str) : parseCsp (dumpCsp (parseCsp h)) = parseCsp h :=
+  csp_normal_form_any h
+
+example : parseCsp " a  b ;; c\td e;x; a z ".toList = [("a".toList, "z".toList), ("c\td".toList, "e".toList)] := by decide
+
+/-- **Age**: a parsed age re-serialises to text that parses to the same age, for every text `h` -/
+theorem age_normal_form_arbitrary (h : Str) (n : Nat) (hp : parseAge h = .ok (some n)) :
+    parseAge (dumpAge n) = .ok (some n) :=
+  age_normal_form_any h n hp
+
+example : parseAge " +1_0 ".toList = .ok (some 10) := by decide
+
+/-- **If-Range** is *not* a normal form on arbitrary text: `parse_if_range_header('a"b')` returns the
+entity tag `a"b`, which `IfRange.to_header()` refuses to serialise (`quote_etag` raises ValueError) —
+outside the domain of `ifRange_etag_roundtrip` by its `_needs_no_quote` witness; on the dumper's
+image the normal form is the round trip itself -/
+theorem ifRange_normal_form_arbitrary_false (pd : Str → Option Nat) (h : pd "a\"b".toList = none) :
+    parseIfRange pd "a\"b".toList = .etag "a\"b".toList ∧
+    ifRangeToHeader (parseIfRange pd "a\"b".toList) = .error "ValueError" := by
+  have : parseIfRange pd "a\"b".toList = .etag "a\"b".toList := by
+    simp only [parseIfRange, h]
+    decide
+  exact ⟨this, by rw [this]; decide⟩
+
+/-- **key=value dicts and Cache-Control** on header text: whenever the keys the parser returned are
+tokens without `*`, `parse_dict_header(dump_header(parse_dict_header(h))) == parse_dict_header(h)`
+(values are arbitrary; keys are distinct because the result is a dict) ... -/
+theorem parseDict_normal_form_text (h : Str) (d : Dict (Option Str)) (hp : parseDictHeader h = .ok d)
+    (hk : ∀ x ∈ d, KeyOk x.1 = true) : (dumpHeaderDict d >>= parseDictHeader) = .ok d :=
+  parseDict_normal_form_text_any h d hp hk
+
+theorem cacheControl_normal_form_text (h : Str) (d : Dict (Option Str)) (hp : parseCacheControl h = .ok d)
+    (hk : ∀ x ∈ d, KeyOk x.1 = true) : (dumpHeaderDict d >>= parseCacheControl) = .ok d := by
+  rw [parseCacheControl_eq] at hp
+  have := parseDict_normal_form_text_any h d hp hk
+  simpa [funext parseCacheControl_eq] using this
+
+example : parseDictHeader "max-age=5, private=\"a, b\", no-store, x = \" y\"".toList
+    = .ok [("max-age".toList, some "5".toList), ("private".toList, some "a, b".toList), ("no-store".toList, none),
+        ("x".toList, some " y".toList)] := by decide
+
+/-- ... and the hypothesis on the keys is needed: on arbitrary text parsing is **not** a normal form
+for dict headers — a key that keeps a `*` after the RFC 2231 marker was removed is re-read as a
+marker, and a key containing `"` changes where the list scanner splits -/
+theorem parseDict_normal_form_arbitrary_false_star :
+    (parseDictHeader "a**=b".toList >>= dumpHeaderDict >>= parseDictHeader) ≠ parseDictHeader "a**=b".toList := by
+  decide
+
+theorem parseDict_normal_form_arbitrary_false_quote :
+    (parseDictHeader "a\"b=c, d\"".toList >>= dumpHeaderDict >>= parseDictHeader)
+      ≠ parseDictHeader "a\"b=c, d\"".toList := by
+  decide
 
 end Wz.Props.C06
